@@ -1,4 +1,257 @@
 import Tfv.Model
+import Tfv.Generated
+import Tfv.Spec.Notation
+import Tfv.Proofs.Notation
+/-!
+# C13 — all surface notations of an expression are interchangeable
+
+`f(x, y)`, `f x y`, `(f x) y`, redundant parentheses, any whitespace and `#`
+comments denote the same expression; a number refers to the supplied input; `-`
+is a fresh anonymous source.  Statements only; the proofs are in
+`Tfv/Proofs/Notation.lean`, the abstract syntax (`Item`, `Spine`), its rendering
+`toks` and its meaning `den`/`denote` in `Tfv/Spec/Notation.lean`.
+Type annotations `e : T` are not covered here.
+-/
 namespace Tfv.C13
-theorem placeholder : True := trivial
+open Tfv Tfv.Notation
+
+/-! ## the parser computes the fold the property describes -/
+
+/-- The stack machine, started anywhere (any stack `k :: S`, any tokens `rest` behind, any previous token), consumes
+the rendering of a spine and leaves exactly the spine's denotation from accumulator `k` on top of the untouched stack `S`.
+Holds for every spine whose operator names are name tokens, including empty groups and empty sub-spines. -/
+theorem C13_parse_spine (P : PLang) (opNames : List String) (inputs : List PExpr) (sp : Spine)
+    (st : FreeState) (k : Option PExpr) (st' : FreeState) (k' : Option PExpr)
+    (hn : namesOkS sp = true) (hd : den opNames inputs st k sp = .ok (st', k'))
+    (n : Nat) (S : List (Option PExpr)) (p : String) (rest : List String) :
+    parseExprLoop P (freeBuilder opNames) inputs false (n + (toks sp).length)
+      { st := st, stack := k :: S, comment := false, prevTok := p } (toks sp ++ rest)
+    = parseExprLoop P (freeBuilder opNames) inputs false n
+      { st := st', stack := k' :: S, comment := false, prevTok := lastTok p (toks sp) } rest :=
+  parse_items P opNames inputs sp st k st' k' hn hd n S p rest
+
+/-- The same for a well-formed spine (declared operators, supplied inputs, nothing empty): the denotation exists,
+is an expression `e`, and `some e` replaces the accumulator. -/
+theorem C13_parse_spine_wf (P : PLang) (opNames : List String) (inputs : List PExpr) (sp : Spine)
+    (hwf : WF opNames inputs.length sp) (st : FreeState) (k : Option PExpr) :
+    ∃ st' e, den opNames inputs st k sp = .ok (st', some e) ∧
+      ∀ (n : Nat) (S : List (Option PExpr)) (p : String) (rest : List String),
+        parseExprLoop P (freeBuilder opNames) inputs false (n + (toks sp).length)
+          { st := st, stack := k :: S, comment := false, prevTok := p } (toks sp ++ rest)
+        = parseExprLoop P (freeBuilder opNames) inputs false n
+          { st := st', stack := some e :: S, comment := false, prevTok := lastTok p (toks sp) } rest :=
+  parse_spine_wf P opNames inputs sp hwf st k
+
+/-- If the denotation is an error (undeclared operator, missing input), the parser stops with the same error,
+whatever follows. -/
+theorem C13_parse_spine_error (P : PLang) (opNames : List String) (inputs : List PExpr) (sp : Spine)
+    (st : FreeState) (k : Option PExpr) (e : PErr)
+    (hn : namesOkS sp = true) (hd : den opNames inputs st k sp = .error e)
+    (n : Nat) (S : List (Option PExpr)) (p : String) (rest : List String) :
+    parseExprLoop P (freeBuilder opNames) inputs false (n + (toks sp).length)
+      { st := st, stack := k :: S, comment := false, prevTok := p } (toks sp ++ rest)
+    = .error e :=
+  parse_items_err P opNames inputs sp st k e hn hd n S p rest
+
+/-- Parsing the rendering of an annotation-free spine gives its denotation — value, final builder state, or error
+(`EmptyParse` when the spine has no content). Covers annotation-free renderings only. -/
+theorem C13_parse_render (P : PLang) (opNames : List String) (inputs : List PExpr) (st0 : FreeState) (sp : Spine)
+    (hn : namesOkS sp = true) :
+    parseExprToks P (freeBuilder opNames) inputs st0 (toks sp) = denote opNames inputs st0 sp :=
+  parseExprToks_toks P opNames inputs st0 sp hn
+
+/-- A well-formed spine parses successfully. -/
+theorem C13_parse_render_wf (P : PLang) (opNames : List String) (inputs : List PExpr) (sp : Spine)
+    (hwf : WF opNames inputs.length sp) (st0 : FreeState) :
+    ∃ st' e, parseExprToks P (freeBuilder opNames) inputs st0 (toks sp) = .ok (st', e) ∧
+      den opNames inputs st0 none sp = .ok (st', some e) :=
+  parse_render_wf P opNames inputs sp hwf st0
+
+/-! ## interchangeable notations -/
+
+/-- Redundant parentheses around an expression change nothing: `(e)` parses as `e`. -/
+theorem C13_redundant_parens (P : PLang) (opNames : List String) (inputs : List PExpr) (sp : Spine)
+    (hn : namesOkS sp = true) (st0 : FreeState) :
+    parseExprToks P (freeBuilder opNames) inputs st0 (toks [.group [sp]])
+    = parseExprToks P (freeBuilder opNames) inputs st0 (toks sp) :=
+  parse_parens P opNames inputs sp hn st0
+
+/-- Application associates to the left: `(i₁ … iⱼ) iⱼ₊₁ … iₙ` parses as `i₁ … iₙ`. -/
+theorem C13_paren_prefix (P : PLang) (opNames : List String) (inputs : List PExpr) (sp : Spine) (j : Nat)
+    (hn : namesOkS sp = true) (st0 : FreeState) :
+    parseExprToks P (freeBuilder opNames) inputs st0 (toks (.group [sp.take j] :: sp.drop j))
+    = parseExprToks P (freeBuilder opNames) inputs st0 (toks sp) :=
+  parse_paren_prefix P opNames inputs sp j hn st0
+
+/-- Call notation with atomic arguments: `f(a₁, …, aₙ)` parses as `f a₁ … aₙ`. -/
+theorem C13_call_atoms (P : PLang) (opNames : List String) (inputs : List PExpr) (f : Item) (as : List Item)
+    (ha : ∀ a ∈ as, isAtom a = true) (hn : namesOkS (f :: as) = true) (st0 : FreeState) :
+    parseExprToks P (freeBuilder opNames) inputs st0 (toks [f, .group (as.map fun a => [a])])
+    = parseExprToks P (freeBuilder opNames) inputs st0 (toks (f :: as)) :=
+  parse_call_atoms P opNames inputs f as ha hn st0
+
+/-- Every rendering style of an application tree — `f x (g y)`, `(f x) (g y)`, `((f)(x))((g)(y))`, `f(x, g(y))` —
+parses to the expression the tree stands for (or to its error). -/
+theorem C13_render_tree (P : PLang) (opNames : List String) (inputs : List PExpr) (s : Style) (t : Tree)
+    (ht : namesOkT t = true) (st0 : FreeState) :
+    parseExprToks P (freeBuilder opNames) inputs st0 (toks (render s t)) = evalTree opNames inputs st0 t :=
+  parse_render_tree P opNames inputs s t ht st0
+
+/-- Hence any two styles are interchangeable. -/
+theorem C13_call_eq_juxtaposition (P : PLang) (opNames : List String) (inputs : List PExpr) (s₁ s₂ : Style) (t : Tree)
+    (ht : namesOkT t = true) (st0 : FreeState) :
+    parseExprToks P (freeBuilder opNames) inputs st0 (toks (render s₁ t))
+    = parseExprToks P (freeBuilder opNames) inputs st0 (toks (render s₂ t)) :=
+  (parse_render_tree P opNames inputs s₁ t ht st0).trans (parse_render_tree P opNames inputs s₂ t ht st0).symm
+
+/-! ## inputs and sources -/
+
+/-- A number denotes the supplied input of that number, wherever it occurs and whatever the builder state,
+which it leaves unchanged. -/
+theorem C13_inputs (P : PLang) (opNames : List String) (inputs : List PExpr) (i : Nat)
+    (h1 : 1 ≤ i) (h2 : i ≤ inputs.length) (st0 : FreeState) :
+    ∃ e, inputs[i - 1]? = some e ∧
+      parseExprToks P (freeBuilder opNames) inputs st0 [toString i] = .ok (st0, e) ∧
+      ∀ st k, denItem opNames inputs st k (.input i) = .ok (st, some (papp k e)) :=
+  parse_input P opNames inputs i h1 h2 st0
+
+/-- `-` alone is a source numbered by the counter, which it increments. -/
+theorem C13_source (P : PLang) (opNames : List String) (inputs : List PExpr) (st0 : FreeState) :
+    parseExprToks P (freeBuilder opNames) inputs st0 ["-"]
+    = .ok ({ st0 with nsrc := st0.nsrc + 1 }, .src st0.nsrc) :=
+  parse_src P opNames inputs st0
+
+/-- Sources are numbered from left to right: after a prefix `sp₁` containing `c` tokens `-` (at any depth) the next `-`
+becomes source number `nsrc + c` — never a number used before. -/
+theorem C13_source_fresh (opNames : List String) (inputs : List PExpr) (sp₁ sp₂ : Spine)
+    (st st₁ : FreeState) (k k₁ : Option PExpr) (h1 : den opNames inputs st k sp₁ = .ok (st₁, k₁)) :
+    st₁.nsrc = st.nsrc + countSrcS sp₁ ∧
+    den opNames inputs st k (sp₁ ++ .src :: sp₂) =
+      den opNames inputs { st₁ with nsrc := st₁.nsrc + 1 }
+        (some (papp k₁ (.src (st.nsrc + countSrcS sp₁)))) sp₂ :=
+  ⟨(nsrc_items opNames inputs sp₁ st k st₁ k₁ h1).1, den_src_after opNames inputs sp₁ sp₂ st st₁ k k₁ h1⟩
+
+/-! ## white space and comments -/
+
+/-- The tokenizer returns the tokens of any layout: blanks before the first token and after every token, where only
+two adjacent ordinary tokens need a blank between them. -/
+theorem C13_tokens (specials blanks : String) (lead : List Char) (items : List (String × List Char))
+    (hlead : ∀ c ∈ lead, c ∈ blanks.toList) (h : LayoutOk specials.toList blanks.toList items) :
+    tokenize specials blanks (layout lead items) = items.map Prod.fst :=
+  tokenize_layout specials blanks lead items hlead h
+
+/-- In the expression parser (any builder), the tokens from `#` to the end of the line are ignored. -/
+theorem C13_comments {S E : Type} (P : PLang) (B : Builder S E) (inputs : List E) (defaults : Bool)
+    (junk : List String) (hj : "\n" ∉ junk) (n : Nat) (s : EState S E) (hc : s.comment = false)
+    (rest : List String) :
+    parseExprLoop P B inputs defaults (n + junk.length + 2) s ("#" :: junk ++ "\n" :: rest)
+    = parseExprLoop P B inputs defaults n { s with prevTok := "\n" } rest :=
+  comment_skip P B inputs defaults junk hj n s hc rest
+
+/-- Comments and line breaks anywhere (any builder): a token list without type annotations parses like the list
+with every comment (`#` up to the line break) and every line break removed. -/
+theorem C13_trivia {S E : Type} (P : PLang) (B : Builder S E) (inputs : List E) (st0 : S) (ts : List String)
+    (hcol : ":" ∉ stripTrivia false ts) :
+    parseExprToks P B inputs st0 ts = parseExprToks P B inputs st0 (stripTrivia false ts) :=
+  parseExprToks_strip P B inputs st0 ts hcol
+
+/-- Hence any token list that is the rendering of a spine up to comments and line breaks parses to the spine's
+denotation. -/
+theorem C13_trivia_render (P : PLang) (opNames : List String) (inputs : List PExpr) (st0 : FreeState)
+    (ts : List String) (sp : Spine) (hn : namesOkS sp = true) (hts : stripTrivia false ts = toks sp) :
+    parseExprToks P (freeBuilder opNames) inputs st0 ts = denote opNames inputs st0 sp :=
+  parse_trivia P opNames inputs st0 ts sp hn hts
+
+/-- From text to expression: any layout of the rendering of a spine parses to the spine's denotation. -/
+theorem C13_text (P : PLang) (opNames : List String) (inputs : List PExpr) (specials blanks : String)
+    (lead : List Char) (items : List (String × List Char))
+    (hlead : ∀ c ∈ lead, c ∈ blanks.toList) (h : LayoutOk specials.toList blanks.toList items)
+    (sp : Spine) (hn : namesOkS sp = true) (htoks : items.map Prod.fst = toks sp) (st0 : FreeState) :
+    parseExprToks P (freeBuilder opNames) inputs st0 (tokenize specials blanks (layout lead items))
+    = denote opNames inputs st0 sp :=
+  parse_text P opNames inputs specials blanks lead items hlead h sp hn htoks st0
+
+/-- … and with comments and line breaks among the tokens: any layout of any token list that is the rendering of a
+spine up to comments and line breaks parses to the spine's denotation. -/
+theorem C13_text_trivia (P : PLang) (opNames : List String) (inputs : List PExpr) (specials blanks : String)
+    (lead : List Char) (items : List (String × List Char))
+    (hlead : ∀ c ∈ lead, c ∈ blanks.toList) (h : LayoutOk specials.toList blanks.toList items)
+    (sp : Spine) (hn : namesOkS sp = true) (htoks : stripTrivia false (items.map Prod.fst) = toks sp)
+    (st0 : FreeState) :
+    parseExprToks P (freeBuilder opNames) inputs st0 (tokenize specials blanks (layout lead items))
+    = denote opNames inputs st0 sp :=
+  parse_text_trivia P opNames inputs specials blanks lead items hlead h sp hn htoks st0
+
+/-! ## non-vacuity -/
+
+def exOps : List String := ["f", "g", "x"]
+def exInputs : List PExpr := [.input 1, .input 2]
+/-- `f ( g 2 , - ) x` -/
+def exSpine : Spine := [.op "f", .group [[.op "g", .input 2], [.src]], .op "x"]
+
+example : WF exOps exInputs.length exSpine := by decide
+example : toks exSpine = ["f", "(", "g", "2", ",", "-", ")", "x"] := by decide
+example : denote exOps exInputs {} exSpine
+    = .ok ({ nsrc := 1 }, .app (.app (.app (.op "f") (.app (.op "g") (.input 2))) (.src 0)) (.op "x")) := by rfl
+example : parseExprToks {types := []} (freeBuilder exOps) exInputs {} ["f", "(", "g", "2", ",", "-", ")", "x"]
+    = .ok ({ nsrc := 1 }, .app (.app (.app (.op "f") (.app (.op "g") (.input 2))) (.src 0)) (.op "x")) := by rfl
+
+/-- `f x (g 1 -)` -/
+def exTree : Tree := .app (.app (.op "f") (.op "x")) (.app (.app (.op "g") (.input 1)) .src)
+example : namesOkT exTree = true := by decide
+example : toks (render .juxta exTree) = ["f", "x", "(", "g", "1", "-", ")"] := by decide
+example : toks (render .binary exTree) = ["(", "f", "x", ")", "(", "(", "g", "1", ")", "-", ")"] := by decide
+example : toks (render .call exTree) = ["f", "(", "x", ",", "g", "(", "1", ",", "-", ")", ")"] := by decide
+example : toks (render .paren exTree)
+    = ["(", "(", "f", ")", "(", "x", ")", ")", "(", "(", "(", "g", ")", "(", "1", ")", ")", "(", "-", ")", ")"] := by decide
+example : evalTree exOps exInputs {} exTree
+    = .ok ({ nsrc := 1 }, .app (.app (.op "f") (.op "x")) (.app (.app (.op "g") (.input 1)) (.src 0))) := by rfl
+
+/-- an undeclared operator and a missing input are errors of the denotation too -/
+example : denote exOps exInputs {} [.op "f", .op "h"] = .error (.undefinedToken "h") := by rfl
+example : denote exOps exInputs {} [.op "f", .input 3] = .error (.missingInput 3) := by rfl
+example : denote exOps exInputs {} [.group [[]]] = .error .emptyParse := by rfl
+
+/-- a layout of `f ( g 2 , - ) x` with irregular blanks: `  f(g \t2,- )x ` -/
+def exLayout : List (String × List Char) :=
+  [("f", []), ("(", []), ("g", [' ', '\t']), ("2", []), (",", []), ("-", [' ']), (")", []), ("x", [' '])]
+example : LayoutOk Generated.exprSpecials.toList Generated.blanks.toList exLayout := by
+  simp [LayoutOk, exLayout, IsToken, IsWord, Generated.exprSpecials, Generated.blanks]
+example : layout [' ', ' '] exLayout = "  f(g \t2,- )x " := by decide
+example : exLayout.map Prod.fst = toks exSpine := by decide
+
+/-- the same with a comment and line breaks: `f(g 2, # c (` ⏎ `- )` ⏎ `x` -/
+def exLayout2 : List (String × List Char) :=
+  [("f", []), ("(", []), ("g", [' ']), ("2", []), (",", [' ']), ("#", [' ']), ("c", [' ']), ("(", []), ("\n", []),
+   ("-", [' ']), (")", []), ("\n", []), ("x", [])]
+example : LayoutOk Generated.exprSpecials.toList Generated.blanks.toList exLayout2 := by
+  simp [LayoutOk, exLayout2, IsToken, IsWord, Generated.exprSpecials, Generated.blanks]
+example : layout [] exLayout2 = "f(g 2, # c (\n- )\nx" := by decide
+example : stripTrivia false (exLayout2.map Prod.fst) = toks exSpine := by decide
+
+/-- a comment: `f # anything ( \n x` is `f x` -/
+example : stripTrivia false ["f", "#", "anything", "(", ":", "\n", "\n", "x", "#", "end"] = ["f", "x"] := by decide
+example : parseExprToks {types := []} (freeBuilder exOps) exInputs {} ["f", "#", "anything", "(", "\n", "x"]
+    = .ok ({}, .app (.op "f") (.op "x")) := by rfl
+
+/-! ## behaviours of the model worth knowing (all covered by the theorems above or outside their scope) -/
+
+/-- empty groups and empty sub-spines are skipped: `f ()` is `f`, `f(,x)` and `f(x,)` are `f x` -/
+example : parseExprToks {types := []} (freeBuilder exOps) exInputs {} ["f", "(", ")"] = .ok ({}, .op "f") := by rfl
+example : parseExprToks {types := []} (freeBuilder exOps) exInputs {} ["f", "(", ",", "x", ")"]
+    = .ok ({}, .app (.op "f") (.op "x")) := by rfl
+example : parseExprToks {types := []} (freeBuilder exOps) exInputs {} ["f", "(", "x", ",", ")"]
+    = .ok ({}, .app (.op "f") (.op "x")) := by rfl
+/-- a leading comma outside any parenthesis is accepted: `, f` is `f` (a trailing one is a bracket mismatch) -/
+example : parseExprToks {types := []} (freeBuilder exOps) exInputs {} [",", "f"] = .ok ({}, .op "f") := by rfl
+example : parseExprToks {types := []} (freeBuilder exOps) exInputs {} ["f", ","] = .error .bracketMismatch := by rfl
+/-- `0` is the last input (Python's index -1); leading zeros and non-ASCII decimal digits are numbers too -/
+example : parseExprToks {types := []} (freeBuilder exOps) exInputs {} ["0"] = .ok ({}, .input 2) := by rfl
+example : parseExprToks {types := []} (freeBuilder exOps) exInputs {} ["0002"] = .ok ({}, .input 2) := by rfl
+example : parseExprToks {types := []} (freeBuilder exOps) exInputs {} ["٢"] = .ok ({}, .input 2) := by rfl
+/-- `;` discards everything before it, open parentheses included -/
+example : parseExprToks {types := []} (freeBuilder exOps) exInputs {} ["f", "(", "x", ";", "g"] = .ok ({}, .op "g") := by rfl
+/-- `-` is not a special character of the tokenizer: `-x` is one (undeclared) name -/
+example : tokenize Generated.exprSpecials Generated.blanks "f -x - (-)" = ["f", "-x", "-", "(", "-", ")"] := by decide
+
 end Tfv.C13
